@@ -29,6 +29,7 @@ type CorpusOpt struct {
 	Tag       string // distinguishes bodies of different corpora
 	Agg       bool   // add single-valued aggregation fields g1,g2 (groups) and v1,v2 (numeric)
 	Groups    int    // cardinality of g2 (g1 has at most 4 values)
+	HugeNums  bool   // v1/v2 hold only values beyond the int64 range, all of one sign (every group and bin then has nothing but such values)
 }
 
 type Corpus struct {
@@ -84,6 +85,9 @@ func AggNum(r *h.Rng) string {
 		return strconv.FormatFloat(float64(r.Range(-999, 999))*[]float64{1e-6, 1e-3, 1, 1e3, 1e9}[r.Intn(5)], 'g', -1, 64)
 	}
 }
+
+var hugePos = []string{"9223372036854775808", "18446744073709551615", "1e19", "1.5e19", "36893488147419103232", "2.5e40", "1e300"}
+var hugeNeg = []string{"-9223372036854775809", "-18446744073709551616", "-1e19", "-1.5e19", "-36893488147419103232", "-2.5e40", "-1e300"}
 
 func MakeCorpus(r *h.Rng, o CorpusOpt) *Corpus {
 	if o.BaseMID == 0 {
@@ -142,9 +146,19 @@ func MakeCorpus(r *h.Rng, o CorpusOpt) *Corpus {
 			c.Vocab["g2"] = append(c.Vocab["g2"], fmt.Sprintf("grp%d", i))
 		}
 		nv := r.Range(1, 30)
+		aggNum := AggNum
+		if o.HugeNums {
+			pool := hugePos
+			if r.Bool() {
+				pool = hugeNeg
+			}
+			pool = pool[:r.Range(1, len(pool))]
+			nv = r.Range(1, len(pool))
+			aggNum = func(r *h.Rng) string { return h.Pick(r, pool) }
+		}
 		seen := map[string]bool{}
 		for len(c.Vocab["v1"]) < nv {
-			v := AggNum(r)
+			v := aggNum(r)
 			if !seen[v] {
 				seen[v] = true
 				c.Vocab["v1"] = append(c.Vocab["v1"], v)
@@ -190,7 +204,11 @@ func MakeCorpus(r *h.Rng, o CorpusOpt) *Corpus {
 				d.Toks = append(d.Toks, model.Tok{F: "v1", V: h.Pick(r, c.Vocab["v1"])})
 			}
 			if r.Chance(1, 2) {
-				d.Toks = append(d.Toks, model.Tok{F: "v2", V: AggNum(r)})
+				if o.HugeNums {
+					d.Toks = append(d.Toks, model.Tok{F: "v2", V: h.Pick(r, c.Vocab["v1"])})
+				} else {
+					d.Toks = append(d.Toks, model.Tok{F: "v2", V: AggNum(r)})
+				}
 			}
 		}
 		if r.Chance(1, 10) && len(d.Toks) > 0 && !o.Agg { // repeated token inside one document
